@@ -66,6 +66,22 @@ func clientView(r *tunRun) *tunView {
 func checkTunnel(r *tunRun) {
 	v := clientView(r)
 	m := buildConnModel(v)
+	if r.e.Spec.Trace {
+		for k, ep := range m.epochs {
+			r.e.S.Tracef("model epoch %d ch=%d start=%v end=%v why=%s stall-until=%v ambig=%d", k, ep.Channel, ep.Start.T, ep.End.T, ep.EndWhy, ep.StallUntil, ep.Ambig)
+		}
+		for i, x := range v.rx {
+			if x.F.OK && (x.F.Svc == svcTunnelReq || x.F.Svc == svcConnRes || x.F.Svc == svcDiscReq || x.F.Svc == svcDiscRes) {
+				r.e.S.Tracef("model rx[%d] %v %s mode=%d", i, x.At.T, x.F, m.mode[i])
+			}
+		}
+		if m.term != nil {
+			r.e.S.Tracef("model terminated at %v: %s", m.term.T, m.termWhy)
+		}
+		if m.giveUp {
+			r.e.S.Tracef("model gave up at %v", m.giveUpAt.T)
+		}
+	}
 	checkC03(v, m)
 	checkC04(v, m)
 	checkC05(v, m)
@@ -208,10 +224,11 @@ func buildConnModel(v *tunView) *connModel {
 		}
 		if ev.rxi < 0 {
 			// the client wrote a connect request
-			if mode == mdProcess && ev.at.T == cur.Start.T {
+			if mode == mdProcess && ev.at.T-cur.Start.T <= v.eps && (lastRx < 0 || v.rx[lastRx].At.Seq <= cur.Start.Seq) {
 				// The connect exchange polls its resend ticker and the socket in one select: a
 				// retransmission may still leave in the instant in which the response has been
-				// read but not yet taken. (A heartbeat failure cannot happen in that instant.)
+				// read but not yet taken - or later by whatever stall the simulator injected into
+				// the hand-over. (A heartbeat failure cannot happen that early.)
 				continue
 			}
 			switch mode {
@@ -269,7 +286,9 @@ func buildConnModel(v *tunView) *connModel {
 				// progress or queued when it read the response (hand-over in arrival order): it
 				// starts to work when the last of them has returned.
 				for _, sc := range r.h.Sends {
-					if sc.Inv.Seq < x.At.Seq && (!sc.Done || sc.Ret.Seq > x.At.Seq) {
+					// (a Send invoked in the very instant the response is read may still get the
+					// lock first: taking the response off the socket takes several scheduler steps)
+					if sc.Inv.T <= x.At.T+v.eps && (!sc.Done || sc.Ret.Seq > x.At.Seq) {
 						cur.Pending++
 						if !sc.Done {
 							cur.StallUntil = x.At.T + time.Duration(len(r.h.Sends)+1)*(r.c.T+v.eps)
